@@ -833,6 +833,64 @@ func unparen(e ast.Expr) ast.Expr {
 func (fx *Fx) execGo(st *State, s *ast.GoStmt) {
 	code, a0, a1 := fx.spawnTarget(st, s.Call)
 	st.logEvent(evTerm("Spawn", code, a0, a1, ""))
+	fx.spawnedSenderCheck(st, s)
+}
+
+// spawnedSenderCheck: a goroutine that sends traces on a tracer must be a registered sender of one - the tracer
+// terminates once its registered senders are released, and a trace sent to it afterwards blocks its sender for ever.
+// Structural: if the body of the function started here (nested literals excluded) calls ITracer.Send, it defers the
+// Done of a sender handle at its top level.
+func (fx *Fx) spawnedSenderCheck(st *State, s *ast.GoStmt) {
+	if fx.c.dry {
+		return
+	}
+	var fi *FuncInfo
+	switch f := unparen(s.Call.Fun).(type) {
+	case *ast.FuncLit:
+		fi = fx.w.ByLit[f]
+	default:
+		if fn := fx.calleeFunc(s.Call); fn != nil {
+			fi = fx.w.Funcs[funcKeyOf(fn)]
+		}
+	}
+	if fi == nil || fi.Body == nil || fi.Pkg == nil || fi.Pkg.TypesInfo == nil {
+		return
+	}
+	info := fi.Pkg.TypesInfo
+	named := func(e ast.Expr, want string) bool {
+		t := info.TypeOf(e)
+		if t == nil {
+			return false
+		}
+		if n, ok := t.(*types.Named); ok && n.Obj() != nil && n.Obj().Name() == want && n.Obj().Pkg() != nil && strings.HasSuffix(n.Obj().Pkg().Path(), "pkg/tracing") {
+			return true
+		}
+		return false
+	}
+	sends := false
+	ast.Inspect(fi.Body, func(n ast.Node) bool {
+		switch x := n.(type) {
+		case *ast.FuncLit:
+			return false
+		case *ast.CallExpr:
+			if se, ok := unparen(x.Fun).(*ast.SelectorExpr); ok && se.Sel.Name == "Send" && named(se.X, "ITracer") {
+				sends = true
+			}
+		}
+		return true
+	})
+	if !sends {
+		return
+	}
+	has := "false"
+	for _, stmt := range fi.Body.List {
+		if d, ok := stmt.(*ast.DeferStmt); ok {
+			if se, ok := unparen(d.Call.Fun).(*ast.SelectorExpr); ok && se.Sel.Name == "Done" && named(se.X, "ISenderHandle") {
+				has = "true"
+			}
+		}
+	}
+	fx.c.oblige(st, "blocking", "spawned-sender("+shortKey(fi.Key)+")", has, "a goroutine that sends traces is a registered sender of the tracer: "+shortKey(fi.Key)+" defers the Done of a sender handle", fx.w.pos(s.Pos()))
 }
 
 // spawnTarget evaluates the operands of a go/defer call and returns the code id term.
